@@ -1152,3 +1152,39 @@ def o_slot_purity(P, E):
     if not built:
         r.error("O-slot-purity: Observer::new builds no Observer value")
     return r
+
+
+def f_clear_total(P, E):
+    """FunctionWrapper::clear empties the slot - on every path, whatever the slot holds or whoever else holds a copy of the callable.
+    (Every `nothing after a terminal / after unsubscribe` argument starts from: after clear() returned, exists() is false and nothing
+    can be fetched.)"""
+    r = RuleResult("F-clear-total", "FunctionWrapper::clear stores None into the slot on every path")
+    b = P.body(FW + "::clear")
+    if b is None:
+        r.error("anchor missing: FunctionWrapper::clear")
+        return r
+    stores = []
+    for i in sorted(b.reach):
+        for st in b.blocks[i]["stmts"]:
+            if st["k"] == "assign" and len(st["lhs"]) > 1 and "*" in st["lhs"] and \
+                    any(rk == "param" and rd == 1 and path[:1] == ("inner",) for (rk, rd, path) in b.place_prov(st["lhs"])):
+                rv = st["rv"]
+                none = rv["k"] == "agg" and rv.get("variant") == "None"
+                if rv["k"] == "use" and rv["op"]["k"] in ("copy", "move"):
+                    for t in b.operand_prov(rv["op"]):
+                        if t[0] == "agg" and b.blocks[t[1][0]]["stmts"][t[1][1]]["rv"].get("variant") == "None":
+                            none = True
+                if rv["k"] == "use" and rv["op"]["k"] == "const" and (P.const_init(rv["op"]) or (None, None, None))[2] == "None":
+                    none = True
+                if none:
+                    stores.append(i)
+    for c in b.calls:
+        if c.path in ("std::option::Option::take", "std::mem::take") and c.args and \
+                any(rk == "param" and rd == 1 and path[:1] == ("inner",) for (rk, rd, path) in b.operand_prov(c.args[0])):
+            stores.append(c.bb)
+    r.instance((b.nid, "empties the slot"), True, "None stored at %s" % sorted(set(stores)))
+    if not stores or Effects.path_avoiding(b, b.returns, stores) is not None:
+        r.violate((b.nid, "slot not emptied on every path"),
+                  "FunctionWrapper::clear can return without having stored None into the slot: the callback stays callable (and exists() "
+                  "true) after a terminal / an unsubscribe cleared it", body=b)
+    return r
